@@ -489,6 +489,84 @@ def asCodeOld (p : Prog) : Code :=
   let l3 := p.operations.foldl (fun ls o => codeLet ls (.call o.1 o.2)) l2
   ⟨p.inputs, 0, l3, if l3.length = 0 then none else some (l3.length - 1)⟩
 
+/-! ## lowering (funsor/compiler.py:84-139)
+
+  `compile_funsor` first rewrites the expression with `lower`: atoms are kept, `Tuple`/`Unary`/`Binary`
+  are rebuilt from their lowered parts, and a `Contraction` without reduced variables becomes the
+  left-nested `Binary` chain `functools.reduce(Binary(bin_op), terms)`.  Nothing else is rewritten. -/
+
+mutual
+inductive Src where
+  | const (k : Nat)
+  | var (name : String)
+  | unary (op : String) (a : Src)
+  | binary (op : String) (a b : Src)
+  | tuple (args : SrcArgs)
+  | contraction (binOp : String) (terms : SrcArgs)      -- Contraction(null, bin_op, frozenset(), terms)
+  deriving DecidableEq, Repr
+inductive SrcArgs where
+  | nil
+  | cons (a : Src) (rest : SrcArgs)
+  deriving DecidableEq, Repr
+end
+
+/-- `functools.reduce(f, xs)`: left fold, the first element is the seed; raises on an empty sequence. -/
+def reduce1 {α : Type} (f : α → α → α) : List α → Option α
+  | [] => none
+  | x :: xs => some (xs.foldl f x)
+
+mutual
+/-- Meaning of a source term under substitution; a contraction is its operands combined left to right. -/
+def evalSrc {V : Type} (I : Interp V) (kw : Kw V) : Src → Option V
+  | .const k => some (I.const k)
+  | .var n => kwGet kw n
+  | .unary op a => (evalSrc I kw a).map (I.un op)
+  | .binary op a b =>
+    match evalSrc I kw a, evalSrc I kw b with
+    | some x, some y => some (I.bin op x y)
+    | _, _ => none
+  | .tuple as => (evalSrcArgs I kw as).map I.tup
+  | .contraction op ts =>
+    match evalSrcArgs I kw ts with
+    | some vs => reduce1 (I.bin op) vs
+    | none => none
+def evalSrcArgs {V : Type} (I : Interp V) (kw : Kw V) : SrcArgs → Option (List V)
+  | .nil => some []
+  | .cons a r =>
+    match evalSrc I kw a, evalSrcArgs I kw r with
+    | some x, some xs => some (x :: xs)
+    | _, _ => none
+end
+
+mutual
+/-- `compiler.lower`; `none` = `functools.reduce` on an empty `terms` raises. -/
+def lower : Src → Option Expr
+  | .const k => some (.const k)
+  | .var n => some (.var n)
+  | .unary op a => (lower a).map (.unary op)
+  | .binary op a b =>
+    match lower a, lower b with
+    | some x, some y => some (.binary op x y)
+    | _, _ => none
+  | .tuple as => (lowerArgs as).map fun es => .tuple (Args.ofList es)
+  | .contraction op ts =>
+    match lowerArgs ts with
+    | some es => reduce1 (Expr.binary op) es
+    | none => none
+def lowerArgs : SrcArgs → Option (List Expr)
+  | .nil => some []
+  | .cons a r =>
+    match lower a, lowerArgs r with
+    | some x, some xs => some (x :: xs)
+    | _, _ => none
+end
+
+/-- The peephole of seeded defect C18_3 on an already lowered term: a unary op applied directly to the
+    op registered as its `.inv` is dropped together with it. -/
+def cancelInv (inv : String → Option String) : Expr → Expr
+  | .unary op (.unary op' a) => if inv op = some op' then a else .unary op (.unary op' a)
+  | e => e
+
 /-! ## printing of parametrised ops (`program._print_op`, funsor/ops/program.py:101-108)
 
   An op instance is its class plus the current value of every parameter, in signature order
